@@ -346,6 +346,12 @@ BASE_TRUST = [
 def standard_check(prop_id, tier, seed, spec):
     """spec: dict(engine=..., extra=[...], level_rule=..., trust=[...], assumptions=[...],
                  search_seeds=int, race=bool, engine_timeout=int)"""
+    # one run of a given property at a time (the work directory is per property)
+    with Lock("check-" + prop_id):
+        return _standard_check(prop_id, tier, seed, spec)
+
+
+def _standard_check(prop_id, tier, seed, spec):
     t0 = time.time()
     thorough = tier == "thorough"
     violations = []      # (kind, detail dict)
